@@ -32,13 +32,13 @@ pub fn def() -> CheckDef {
                model.aeon and formulae.txt (lines = formula list); load_bdd_bundle with a graph REBUILT from the archived model.aeon and the \
                same k must return the same labels with the identical BDDs, and membership of every (state, colour) must be unchanged. \
                (2) analyse_formulae(.., Some(zip), ..): entry formula-i must equal the library's batch result for line i of the archived \
-               formulae.txt. (3) an extended formula evaluated with the reloaded sets must equal its evaluation with the in-memory sets. \
+               formulae.txt. (2b) analyse_formula (single-formula wrapper), with and without a context archive, writes the archive for its one formula and leaves the context archive untouched. (3) an extended formula evaluated with the reloaded sets must equal its evaluation with the in-memory sets. \
                (4) one case in 40 archives scattered sets of up to 9 000 points over a graph with 2-3 spare variable sets (entries of 100+ KB). Non-trivial: >= 2 labels and some set neither empty nor full; distinct by (network, labels, formulae, k).",
         assumptions: &["archives are written under /verif/target/tmp and removed after each case", ".bnet / .sbml files are produced by lib-param-bn's own writers from the generated network"],
         cases: |t| if t == Tier::Quick { 600 } else { 30_000 },
         needs: |t| {
             let m = if t == Tier::Quick { 1 } else { 40 };
-            vec![("distinct_nontrivial", 100 * m), ("format_aeon", 50 * m), ("format_bnet", 20 * m), ("format_sbml", 30 * m), ("k_0", 20 * m), ("k_1", 20 * m), ("k_2", 20 * m), ("k_3", 20 * m), ("analysis_archives", 100 * m), ("sets_reloaded", 500 * m), ("large_entries_reloaded", 20 * m)]
+            vec![("distinct_nontrivial", 100 * m), ("format_aeon", 50 * m), ("format_bnet", 20 * m), ("format_sbml", 30 * m), ("k_0", 20 * m), ("k_1", 20 * m), ("k_2", 20 * m), ("k_3", 20 * m), ("analysis_archives", 100 * m), ("sets_reloaded", 500 * m), ("large_entries_reloaded", 20 * m), ("single_formula_analyses", 100 * m)]
         },
         run,
         prelude: None,
@@ -410,6 +410,61 @@ fn run_inner(rng: &mut Rng, world: &World, k: u16, format: &str, dir: &str) -> C
         if entry.as_bdd() != batch[i].as_bdd() {
             out.violate("archived result does not belong to its line", format!("entry formula-{i} differs from the library result of line {i} `{f}`"), detail("entry vs line"));
             return out;
+        }
+    }
+    // (2b) the single-formula wrapper: same archive as the list version would write for that one formula; with a
+    // context archive the context file must be read (not written) and the result archive written
+    if let Some(f0) = formulae.first() {
+        use biodivine_hctl_model_checker::analysis::analyse_formula;
+        let zip3 = format!("{dir}/single.zip");
+        let with_ctx = rng.coin();
+        let ctx_bytes_before = std::fs::read(&zip_path).unwrap_or_default();
+        let ctx_arg = if with_ctx { Some(zip_path.clone()) } else { None };
+        match libg::guarded(|| analyse_formula(&bn, f0.clone(), PrintOptions::NoPrint, Some(zip3.clone()), ctx_arg.clone())) {
+            Ok(Ok(())) => {}
+            Ok(Err(e)) => {
+                out.violate("analysis fails on valid formulae", format!("analyse_formula(result archive, context {with_ctx}): {e}"), detail(&e));
+                return out;
+            }
+            Err(p) => {
+                out.violate(&libg::panic_signature(&p), format!("analyse_formula panicked: {p}"), detail(&p));
+                return out;
+            }
+        }
+        out.count("single_formula_analyses");
+        if with_ctx && std::fs::read(&zip_path).unwrap_or_default() != ctx_bytes_before {
+            out.violate("context archive modified by the analysis", "analyse_formula changed the context archive it was given".to_string(), detail("context archive"));
+            return out;
+        }
+        let entries3 = match read_zip(&zip3) {
+            Ok(e) => e,
+            Err(e) => {
+                out.violate("analysis archive is not a readable zip", format!("analyse_formula: {e}"), detail(&e));
+                return out;
+            }
+        };
+        let lines3: Vec<String> = entries3.get("formulae.txt").map(|t| t.lines().map(|l| l.to_string()).collect()).unwrap_or_default();
+        if lines3 != vec![f0.clone()] || !entries3.contains_key("formula-0.bdd") || !entries3.contains_key("model.aeon") {
+            out.violate(
+                "single-formula analysis archive is incomplete",
+                format!("analyse_formula on `{f0}`: entries {:?}, formulae.txt {lines3:?}", entries3.keys().collect::<Vec<_>>()),
+                detail("single archive"),
+            );
+            return out;
+        }
+        let need0 = crate::syn::parse(f0, false).map(|f| f.quant_depth()).unwrap_or(0) as u16;
+        if let (Ok(bn3), true) = (BooleanNetwork::try_from(entries3["model.aeon"].as_str()), true) {
+            if let Ok(g3) = get_extended_symbolic_graph(&bn3, need0) {
+                if let (Ok(loaded3), Call::Ok(expect3)) = (load_bdd_bundle(&zip3, g3.symbolic_context()), call(|| mc::model_check_formula_dirty(f0, &g3))) {
+                    match loaded3.get("formula-0") {
+                        Some(s3) if s3.as_bdd() == expect3.as_bdd() => {}
+                        _ => {
+                            out.violate("archived result does not belong to its line", format!("analyse_formula: entry formula-0 differs from the library result of `{f0}`"), detail("single entry"));
+                            return out;
+                        }
+                    }
+                }
+            }
         }
     }
     if out.nontrivial {
